@@ -158,11 +158,11 @@ EXPECTED = [('C06',
    '        out = _prod(numpoly.reshape(a, -1), axis=0)\n'
    '        out = numpoly.reshape(out, (1,) * len(a.shape))\n'
    '        return out\n'
-   '    elif isinstance(axis, int):\n'
+   '    elif isinstance(axis, (int, numpy.integer)):\n'
    '        axis = [axis]',
    'if axis is None:\n'
    '    out = _prod(numpoly.reshape(a, -1), axis=0)\n'
-   'elif isinstance(axis, int):\n'
+   'elif isinstance(axis, (int, numpy.integer)):\n'
    '    out = _prod(a, axis=axis)\n'
    'else:\n'
    '    v0 = [v1 + a.ndim if v1 < 0 else v1 for v1 in axis]\n'
